@@ -89,6 +89,9 @@ def run_cfg_history(flags, init_en, init_div, ops, rxpadding=0, started=False, c
                 err = exc_name(e)
             sent = link.writes[w0:]
             if rxpadding:
+                for x in sent:
+                    if len(x) % rxpadding:
+                        info.setdefault("unaligned", []).append((op, len(x), rxpadding))
                 sent = [strip_pad(x) for x in sent]
             ch = comm._channels
             cp_en = [comm.dev.channel_get(i).data.en for i in range(n)]
